@@ -666,6 +666,9 @@ package resolve
 //@   requires r != nil
 //@   assumes pathOK(obj.Path)
 //@   at call Resolvable.addError: assert {error.path.is.the.response.path} len(r.path) + len(arg2) == old(len(r.path)) + len(obj.Path)
+//@   ghost var g_mounted bool = false
+//@   at call Resolvable.printDeferEnvelopeOpen: ghost g_mounted = true
+//@   at call Resolvable.walkFields: assert {the.object.a.fragment.is.mounted.on.counts.as.delivered} arg4.enabled && g_mounted ==> arg4.passThrough || arg4.deferRoot
 //@   ensures {mode.unchanged} modeSame(r)
 //@   ensures {stack.restored} len(r.path) == old(len(r.path))
 //@   modifies *, count(*), nocount(hasNext), nocount(completedEntry), nocount(pendingList)
@@ -681,6 +684,7 @@ package resolve
 //@   at call SetNull: assert {array.nulled.only.if.nullable} arr.Nullable
 //@   at call SetNull: assert {nearest.nullable.ancestor.first} !(nodeNullable(arr.Item) && (nodeKind(arr.Item) == NodeKindObject || nodeKind(arr.Item) == NodeKindArray))
 //@   at call SetArrayItem: assert {item.nulled.only.if.nullable.container} nodeNullable(arr.Item) && (nodeKind(arr.Item) == NodeKindObject || nodeKind(arr.Item) == NodeKindArray)
+//@   at call SetArrayItem: assert {items.of.a.list.the.client.already.has.are.never.nulled} !(r.currentDefer != nil && !r.enableDeferRender)
 //@   ghost var g_isArray bool = false
 //@   ghost var g_n int = 0 - 1
 //@   ghost var g_walks int = 0
@@ -701,10 +705,18 @@ package resolve
 //@     invariant modeSame(r) && rendering(r) == rend && g_isArray && g_n == len(values) && !g_listNulled
 //@     invariant !rend ==> g_walks == i
 
+//@ func walkFieldsFilter.delivered
+//@   ensures result == (f.enabled && (f.passThrough || f.deferRoot))
+//@   pure
 //@ func Resolvable.walkFields
 //@   requires r != nil
 //@   assumes forall k in 0..len(obj.Fields) :: obj.Fields[k] != nil && isFieldValue(obj.Fields[k].Value)
 //@   at call SetNull: assert {null.only.in.prewalk} !rendering(r)
+//@   ghost var g_fieldNull bool = false
+//@   at call authorizeField: ghost g_fieldNull = false
+//@   at call Value.Get: ghost g_fieldNull = true
+//@   at call walkNode: ghost g_fieldNull = false
+//@   at call SetNull: assert {an.object.the.client.already.has.is.never.nulled} !g_fieldNull ==> !(filter.enabled && (filter.passThrough || filter.deferRoot))
 //@   ghost itervar g_denied bool = false
 //@   at call authorizeField: ghost g_denied = result
 //@   ghost var g_pendingDeny bool = false
